@@ -75,6 +75,10 @@ def window_items(cols, roles):
             items.append({"op": "extend", "ops": {z: M(fn, C(src))}, "partition_by": pb})
         items.append({"op": "extend", "ops": {z: F("_size")}, "partition_by": pb})
         items.append({"op": "extend", "ops": {z: M("sum", V(1))}, "partition_by": pb})
+    if K and B is not None:
+        # two partition columns
+        items.append({"op": "extend", "ops": {z: M("sum", C(B))}, "partition_by": [K[0], A]})
+        items.append({"op": "extend", "ops": {z: F("_row_number")}, "partition_by": [K[0], A], "order_by": [B], "reverse": []})
     # ordered windows
     for pb in parts:
         for rv in ([], [A]):
@@ -106,6 +110,11 @@ def project_items(cols, roles):
             items.append({"op": "project", "ops": {"s": F("_size")}, "group_by": gb})
     if K:
         items.append({"op": "project", "ops": {}, "group_by": [K[0]]})
+    if K and len(N) > 1:
+        # two group keys (a string key and a numeric one): later steps can drop one of them
+        items.append({"op": "project", "ops": {"s": M("sum", C(N[1]))}, "group_by": [K[0], N[0]]})
+        items.append({"op": "project", "ops": {"s": F("_size")}, "group_by": [N[0], K[0]]})
+        items.append({"op": "project", "ops": {}, "group_by": [K[0], N[0]]})
     # drop items whose output name collides with a group column
     return [it for it in items if not (set(it["ops"]) & set(it["group_by"]))]
 
@@ -173,6 +182,9 @@ def order_items(cols, roles):
         for rv in ([], list(ks)):
             for lim in (None, 1, 2):
                 items.append({"op": "order_rows", "columns": ks, "reverse": rv, "limit": lim})
+    if keys:
+        # a limit of zero is legal (and falsy)
+        items.append({"op": "order_rows", "columns": keys[0], "reverse": [], "limit": 0})
     return items
 
 
